@@ -14,11 +14,11 @@ What can be observed: {'; '.join(p['anchors'].get('observe_at') or [])}
 
 WHAT TO PRODUCE: up to THREE independent changes (different mechanisms, different places if possible). Each change must need something SPECIFIC to manifest — a particular interleaving, a fault at a particular point, a multi-step sequence of operations, an unusual input (a boundary length, a rare byte, a particular combination of options), or two cooperating sites that each look fine alone. Do NOT produce changes that ordinary use would expose at once (e.g. breaking the common path for every input). Keep each change small (a few lines), plausible, and confined to non-test source files of the library.
 
-For each change i = 1..3 write, in the directory {wt}/SEED/ (create it):
+For each change i = 1..3 write, in the directory {wt}/_SEED/ (create it):
   - change<i>.diff   : the change as `git diff` output relative to the worktree's HEAD (only library source files, no test files)
   - demo<i>_test.go  : a self-contained Go test file (state in a comment at its top in which package directory of the library it must be placed, e.g. `// place in: middleware/`) that FAILS with the change applied and PASSES without it. It must use only the library's existing dependencies and the standard library, run offline, and finish in a few seconds.
   - note<i>.md       : which clause of the property the change breaks, what exactly is needed for it to manifest, and why the existing tests do not notice.
 
-RULES: work only inside {wt} (it is a git worktree: do not run `git commit`, `git worktree`, `git checkout <branch>`; use `git diff`, `git stash`/`git checkout -- .` to move between the changed and unchanged state). Everything is offline: every shell call that runs go needs `export GOFLAGS=-mod=mod GOPROXY=off GOSUMDB=off GOTOOLCHAIN=local`. The existing test suite is `go test -vet=off -count=1 ./...` run in {wt} (about 10 s); it must pass with each change applied on its own (copying your demo file into the tree is only for your own verification: remove it again before running the suite, and leave the worktree's tracked files unchanged at the end — only the untracked SEED/ directory stays). Do not look outside {wt} except for the Go standard library and module cache. Verify each change yourself before you report: (1) `go build ./...` succeeds, (2) the suite passes with the change, (3) the demo fails with the change, (4) the demo passes without it.
+RULES: work only inside {wt} (it is a git worktree: do not run `git commit`, `git worktree`, `git checkout <branch>`; never use `git stash` (it is shared between worktrees); use `git diff > file`, `git checkout -- .` and `git apply file` to move between the changed and unchanged state). Everything is offline: every shell call that runs go needs `export GOFLAGS=-mod=mod GOPROXY=off GOSUMDB=off GOTOOLCHAIN=local`. The existing test suite is `go test -vet=off -count=1 ./...` run in {wt} (about 10 s); it must pass with each change applied on its own (copying your demo file into the tree is only for your own verification: remove it again before running the suite, and leave the worktree's tracked files unchanged at the end — only the untracked _SEED/ directory (the leading underscore keeps the go tool from treating it as a package) stays). Do not look outside {wt} except for the Go standard library and module cache. Verify each change yourself before you report: (1) `go build ./...` succeeds, (2) the suite passes with the change, (3) the demo fails with the change, (4) the demo passes without it.
 
 FINAL REPORT: for each change, one paragraph: file(s) touched, the mechanism, what is needed to manifest, and the exact commands you ran to verify with their outcomes. If you could only produce fewer than three good changes, say so rather than padding with obvious ones.""")
